@@ -42,6 +42,8 @@ def _orders_register(term):
 
 def check(src, rep):
     M = Model(src)
+    from sa.oneshot import rule as _one_shot
+    _one_shot(rep, M, src, ("kaifa", "obis_map", "cosem", "obis", "common"), "R1")
     ce = ConstEval(M)
     w = World(src)
     file = src.file(MOD)
